@@ -25,7 +25,7 @@ theorem specRunR_append (colls : List Coll) (r : Reg) (l : List RLin) (x : RLin)
 
 inductive RTrans (s s' : RM.St) : Prop
   | frame (hc : s'.colls = s.colls) (hr : s'.reg = s.reg) (hl : s'.lin = s.lin)
-  | eff (t : Nat) (op : ROp) (hc : s'.colls = s.colls) (hr : s'.reg = (rEff s t op).1.reg) (hl : s'.lin = (rEff s t op).1.lin)
+  | eff (t i : Nat) (op : ROp) (hc : s'.colls = s.colls) (hr : s'.reg = (rEff s t i op).1.reg) (hl : s'.lin = (rEff s t i op).1.lin)
 
 theorem rStep_trans {s s' : RM.St} {e : Ev} (h : RM.step s e = .ok s') : RTrans s s' := by
   unfold RM.step at h
@@ -40,11 +40,11 @@ theorem rStep_trans {s s' : RM.St} {e : Ev} (h : RM.step s e = .ok s') : RTrans 
         · cases h
         · rw [guard_ok] at h; obtain ⟨_, h⟩ := h
           rw [guard_ok] at h; obtain ⟨_, h⟩ := h
-          cases h; exact .eff e.tid .gather rfl rfl rfl
+          cases h; exact .eff e.tid _ .gather rfl rfl rfl
         · next rop _ _ =>
           rw [guard_ok] at h; obtain ⟨_, h⟩ := h
           rw [guard_ok] at h; obtain ⟨_, h⟩ := h
-          cases h; exact .eff e.tid rop rfl rfl rfl
+          cases h; exact .eff e.tid _ rop rfl rfl rfl
       · -- held
         split at h
         · rw [guard_ok] at h; obtain ⟨_, h⟩ := h
